@@ -290,7 +290,7 @@ def enc_cases(ck):
         for shape in SHAPES:
             cases.append(rand_spec(rng, d, shape, layout="C"))
     # size classes (an implementation may change strategy at a threshold), with non-native byte order too
-    big = set(DT_ALL) if ck.thorough else set(rng.sample(DT_ALL, 3))
+    big = set(DT_ALL) if ck.thorough else set(rng.sample(DT_ALL, 1))
     for d in DT_ALL:
         for n in SIZE_CLASSES:
             if n == 65536 and d not in big:
@@ -1578,6 +1578,33 @@ def embed_case(case):
     return probs
 
 
+def _embed_worker(case):
+    """One embedding case in a worker: never raises (a harness problem is a per-case result)."""
+    import warnings
+
+    warnings.filterwarnings("ignore", category=RuntimeWarning)
+    before = dict(UNOBSERVABLE)
+    try:
+        probs = embed_case(case)
+    except Exception as e:  # noqa: BLE001
+        probs = [("unobservable", f"harness could not run the case: {type(e).__name__}: {str(e)[:160]}")]
+    return probs, {k: v for k, v in UNOBSERVABLE.items() if k not in before}
+
+
+def _map_embed(cases):
+    import multiprocessing as mp
+    import os
+
+    n = min(6, os.cpu_count() or 1)
+    if n <= 1 or len(cases) < 64:
+        return [_embed_worker(c) for c in cases]
+    try:
+        with mp.get_context("fork").Pool(n) as pool:
+            return pool.map(_embed_worker, cases, chunksize=16)
+    except Exception:  # noqa: BLE001  (no fork / pool trouble: run in-process)
+        return [_embed_worker(c) for c in cases]
+
+
 def gen_embed_cases(ck):
     rng = ck.rng
     cases = []
@@ -1615,7 +1642,11 @@ def gen_embed_cases(ck):
     for d in DT_ALL:
         for n in SIZE_CLASSES:
             shapes = SHAPES_OF[n]
-            if n == 65536 and not ck.thorough:
+            if not ck.thorough and n >= 1023:
+                # quick: one (seeded) shape per dtype and size class from the threshold sizes on; the
+                # 65 536 class for a seeded quarter of the dtypes (every dtype gets it over four seeds)
+                if n == 65536 and (DT_ALL.index(d) + ck.seed) % 4:
+                    continue
                 shapes = [shapes[rng.randrange(len(shapes))]]
             for shape in shapes:
                 combos = [(r, bo, l) for r in big_routes for bo in ("=", ">") for l in lays]
@@ -1874,9 +1905,11 @@ def run_oracle(ck):
     warnings.filterwarnings("ignore", category=RuntimeWarning)
     rng = ck.rng
     stats = {"embed": 0, "attr_kind": 0, "wrong_kind": 0, "capture": 0}
-    # F1 embedding
-    for case in gen_embed_cases(ck):
-        probs = embed_case(case)
+    # F1 embedding (a small process pool: the cases are independent; results come back in order)
+    ecases = gen_embed_cases(ck)
+    for case, (probs, unobs) in zip(ecases, _map_embed(ecases)):
+        for k, v in unobs.items():
+            UNOBSERVABLE.setdefault(k, v)
         stats["embed"] += 1
         ck.count(("embed", case["route"], case["arr"]["dtype"], tuple(case["arr"]["shape"]), case["arr"].get("layout"), case["arr"].get("bo")))
         for key, what in probs:
